@@ -246,6 +246,36 @@ def rule_adj(P):
     return r
 
 
+def rule_outbuf(P):
+    r = Rule("C20-outbuf", "K6", "appending output starts the write event only when it is not already pending (a running write timeout is not restarted without progress)", floor=12)
+    f = P.fn("bufferevent_socket_outbuf_cb")
+    ci = ["var", f.params[1][0], "param"]
+    nb = 0
+    for nadd in (0, 10):
+        for enabled in (0, W_, R_ | W_):
+            for pending in (0, 1):
+                for susp in (0, 1):
+                    env = {f.params[0][0]: 1, ci[1]: 1, f.params[2][0]: 1, "bufev": 1, "bufev_p": 1, nkey(["fld", ci, "evbuffer_cb_info.n_added", "->"]): nadd,
+                           nkey(["fld", ["var", "bufev", "local"], "bufferevent.enabled", "->"]): enabled,
+                           nkey(["fld", ["var", "bufev_p", "local"], "bufferevent_private.write_suspended", "->"]): susp}
+                    def more(el, e_):
+                        if callee_name(el.e) == "event_pending":
+                            return pending
+                        return None
+                    for o in run_all(f, (f.entry, 0), env, lambda el: False, P, timer_hook(more)):
+                        if o.kind == "unknown":
+                            r.brk("bufferevent_socket_outbuf_cb: %s" % o.why)
+                            return r
+                        ops = list(o.env.get("#ops", ()))
+                        want = [("add", "write")] if (nadd and enabled & W_ and not pending and not susp) else []
+                        r.inst((nadd, enabled, pending, susp), {"n_added": nadd, "enabled": enabled, "write_event_pending": pending, "write_suspended": susp, "timer_ops": ops})
+                        if ops != want and nb < 3:
+                            nb += 1
+                            r.bad("K6:bufferevent_socket_outbuf_cb:rearm", "%s:%d" % (f.file, f.line), f.name,
+                                  "n_added=%d enabled=%#x pending=%d suspended=%d: %s, documented %s (re-adding a pending event with its timeout pushes the write deadline forward although nothing was written)" % (nadd, enabled, pending, susp, ops, want))
+    return r
+
+
 def run(ctx, config):
     P = ctx.prog(UNITS, config)
-    return [rule_slots(P), rule_callbacks(P), rule_adj(P)]
+    return [rule_slots(P), rule_callbacks(P), rule_adj(P), rule_outbuf(P)]
